@@ -18,6 +18,7 @@
 //!   first:<hex>:<n>        multi-stream off: the first stream's content, <n> bytes left unread
 //!   corrupt:<hex>          an error, or exactly these bytes (never anything else)
 //!   trailing:<hex>         LZIP: members followed by trailing data: exactly these bytes
+//!   oneof:<hex>,<hex>..    an error, or one of these byte strings
 //!   reject                 must be an error
 //!   any                    no panic / hang; agreement with liblzma when liblzma accepts
 //! Reader observation: END <out> <unconsumed> | ERR<kind> <out of earlier calls> | PANIC | SKIP.
@@ -282,6 +283,13 @@ pub fn read_oracle(obs: &str, kind: &str, reference: Option<Result<Vec<u8>, Stri
                 return "FAIL malformed file accepted".into();
             }
         }
+        "oneof" => {
+            if let Some((c, _)) = end {
+                if !arg.split(',').any(|x| x == c) {
+                    return "FAIL corrupted file accepted with content that is neither the original nor a format-defined prefix".into();
+                }
+            }
+        }
         _ => {}
     }
     // reference decoder: whatever liblzma accepts (within the supported feature set) the crate
@@ -292,7 +300,7 @@ pub fn read_oracle(obs: &str, kind: &str, reference: Option<Result<Vec<u8>, Stri
                 Some((c, _)) if c == hex(&refout) => {}
                 Some(_) => return "FAIL decoded content differs from liblzma".into(),
                 None => {
-                    if k != "corrupt" && k != "reject" {
+                    if k != "corrupt" && k != "reject" && k != "oneof" {
                         return "FAIL liblzma decodes the file, the crate rejects it".into();
                     }
                 }
